@@ -50,7 +50,10 @@ const preludeBytesAbstract = `
 (declare-sort Bytes 0)
 (declare-fun u_blen (Bytes) Int)
 (declare-fun bsub (Bytes Int Int) Bytes)
+(declare-const u_bempty Bytes)
 (assert (forall ((b Bytes) (o Int) (l Int)) (! (=> (>= l 0) (= (u_blen (bsub b o l)) l)) :pattern ((bsub b o l)))))
+(assert (forall ((b Bytes) (l Int)) (! (=> (= l (u_blen b)) (= (bsub b 0 l) b)) :pattern ((bsub b 0 l)))))
+(assert (forall ((b Bytes) (o Int)) (! (= (bsub b o 0) u_bempty) :pattern ((bsub b o 0)))))
 `
 
 // in string-theory mode byte strings are SMT strings as well
@@ -60,6 +63,7 @@ const preludeBytesTheory = `
 (define-fun bsub ((b Bytes) (o Int) (l Int)) Bytes (str.substr b o l))
 (define-fun b2s ((b Bytes)) String b)
 (define-fun s2b ((s String)) Bytes s)
+(define-fun u_bempty () Bytes "")
 `
 
 const preludeStrAbstract = `
@@ -114,7 +118,7 @@ func newSmtCtx(strMode bool) *smtCtx {
 }
 
 func newSmtCtx0(strMode bool) *smtCtx {
-	return &smtCtx{declared: map[string]bool{}, svSort: map[string]string{}, strLits: map[string]string{},
+	return &smtCtx{declared: map[string]bool{"u_bempty": true}, svSort: map[string]string{}, strLits: map[string]string{},
 		strMode: strMode, typeTags: map[string]int{}, boxFns: map[string]bool{}, sorts: map[string]bool{"Bytes": true}, globals: map[string]int{},
 		ufuncs: map[string]string{"u_blen": "(Bytes) Int", "bsub": "(Bytes Int Int) Bytes"}}
 
